@@ -42,12 +42,14 @@ def check_C17(run):
     run.model("MC_Varint", "MC_Varint_strs" if run.thorough() else "MC_Varint_strs_quick")
     if run.thorough():
         run.model("MC_Varint", "MC_Varint_strs11")
+    # the integer layer over the whole int64 range, symbolically (TLC's integers are 32 bit)
+    sym = [V.apalache(run.scratch, "VarintInt", inv) for inv in ("InvZig", "InvTen", "InvLen")]
     out, meta = run.drive("C17")
     total, rejected, states, _ = V.judge(run.scratch, "Trace_Prim", out)
     cov = std_cov(run, meta, total, states,
                   "one event per (codec, value) write+read-back or (codec, byte string) read; keys are codec|class where class is the varint length or boundary family; "
                   "distinct_nontrivial counts distinct keys",
-                  extra=dict(int16_exhaustive=meta.get("int16_exhaustive"), short_strings_exhaustive=meta.get("short_strings_exhaustive")))
+                  extra=dict(int16_exhaustive=meta.get("int16_exhaustive"), short_strings_exhaustive=meta.get("short_strings_exhaustive"), apalache_full_int64=sym))
     return V.finish("C17", run.tier, run.seed, "model_checking", cov, rejected, out, run.t0,
                     TRUSTED + ["int32/float32 are boundary + random, not exhaustive (DESIGN C17 limit)"])
 
